@@ -31,6 +31,16 @@ Expected(dims, sel) ==
                          IN Cat(1)
   IN E(1, 0)
 
+\* A dataset that was written with extents wdims (element value = its linear index at that time) and resized to dims
+\* afterwards: an element inside both extents keeps its value, an element that Resize added is zero (C13); the full
+\* read returns exactly that, and a partial read must agree with it (C09).  With wdims = dims the value is the index.
+CoordOf(i, dims) == [k \in 1..Len(dims) |-> (i \div StrideOf(dims, k)) % dims[k]]
+ValueAt(i, dims, wdims) ==
+  LET c == CoordOf(i, dims)
+      RECURSIVE L(_) L(k) == IF k > Len(dims) THEN 0 ELSE c[k] * StrideOf(wdims, k) + L(k + 1)
+  IN IF \A k \in 1..Len(dims) : c[k] < wdims[k] THEN L(1) ELSE 0
+ExpectedVals(dims, wdims, sel) == LET ix == Expected(dims, sel) IN [j \in DOMAIN ix |-> ValueAt(ix[j], dims, wdims)]
+
 \* laws of the selection algebra (checked by TLC on the bounded parameter sets)
 CountLaw(dims, sel) == SelValid(dims, sel) =>
                          Len(Expected(dims, sel)) = Prod([k \in 1..Len(sel) |-> sel[k].count * sel[k].block])
